@@ -36,13 +36,16 @@ NA == "-"
 \*   zero 0 | one 1 | mid random in [2^200, (n-1)/2), top bit of the top byte clear
 \*   half (n-1)/2 (largest low S) | halfp1 (n+1)/2 (top byte 7f) | hi random in [2^255, n-1), top bit set
 \*   nm1 n-1 | n | np1 n+1 | pm1 p-1 | p | max 2^256-1 | big 2^256 (33 significant bytes)
-IntClasses == {"zero", "one", "mid", "half", "halfp1", "hi", "nm1", "n", "np1", "pm1", "p", "max", "big"}
+\* small values, for the short DER contents: v7f 127 (one byte 7f) | v80 128 (DER 00 80, one byte 80
+\*   reads as negative) | vff 255 (DER 00 ff) | v8000 32768 (DER 00 80 00, two bytes 80 00 negative)
+SmallInts  == {"v7f", "v80", "vff", "v8000"}
+IntClasses == {"zero", "one", "mid", "half", "halfp1", "hi", "nm1", "n", "np1", "pm1", "p", "max", "big"} \cup SmallInts
 
-BelowN(v)  == v \in {"zero", "one", "mid", "half", "halfp1", "hi", "nm1"}
+BelowN(v)  == v \in {"zero", "one", "mid", "half", "halfp1", "hi", "nm1"} \cup SmallInts
 BelowP(v)  == BelowN(v) \/ v \in {"n", "np1", "pm1"}
 InRange(v) == BelowN(v) /\ v # "zero"                \* 1 .. n-1
-LowS(v)    == v \in {"one", "mid", "half"}           \* 1 .. (n-1)/2
-HighBit(v) == v \in {"hi", "nm1", "n", "np1", "pm1", "p", "max"}   \* top byte >= 0x80
+LowS(v)    == v \in {"one", "mid", "half"} \cup SmallInts   \* 1 .. (n-1)/2
+HighBit(v) == v \in {"hi", "nm1", "n", "np1", "pm1", "p", "max", "v80", "vff", "v8000"}   \* top byte of the magnitude >= 0x80
 Fits32(v)  == v # "big"
 
 (* ---------------- ECDSA signature encodings ---------------------------- *)
@@ -80,6 +83,13 @@ EcdsaCases ==
     {x \in {[parser |-> pr, shape |-> sh, rc |-> r, sc |-> s, xc |-> NA, inst |-> i] :
                 pr \in EcdsaParsers, sh \in DerShapes \ {"ok"}, r \in {"mid", "hi", "nm1", "n"},
                 s \in {"mid", "half", "halfp1", "nm1", "zero"}, i \in 1..Instances} :
+        Applicable(x.shape, x.rc, x.sc)}
+    \cup
+    \* padding rules on SHORT integers, R and S independently: one byte 80 / ff (negative),
+    \* 00 7f, 00 00, 00 01 (over-padded), 00 00 80 (over-padded), 80 00 (negative) ...
+    {x \in {[parser |-> pr, shape |-> sh, rc |-> r, sc |-> s, xc |-> NA, inst |-> i] :
+                pr \in EcdsaParsers, sh \in {"r_nopad", "s_nopad", "r_pad", "s_pad"},
+                r \in SmallInts \cup {"zero", "one", "mid"}, s \in SmallInts \cup {"zero", "one", "mid"}, i \in 1..Instances} :
         Applicable(x.shape, x.rc, x.sc)}
 
 EcdsaVerdict(pr, sh, r, s) ==
@@ -161,17 +171,22 @@ PubPoint(pr, f) ==
 \*   even 02 x | odd 03 x | zero33 33 zero bytes | zero_junk 00 followed by 32 non-zero bytes
 \*   tag04 04 x | offc 02 x' with x' on no curve point | xgep 02 (p + x0)
 \* musig.pubnonce = musig2.AggregateNonces of that single nonce (NonceAgg),
-\* musig.aggnonce = musig2.Sign given that aggregate nonce (GetSessionValues).
+\* musig.aggnonce = musig2.Sign given that aggregate nonce (GetSessionValues),
+\* musig.partialverify.pubnonce = PartialSignature.Verify given that nonce as the signer's
+\*   individual public nonce (PartialSigVerifyInternal: cpoint on both halves).  "accept" there
+\*   means an honest partial signature for that nonce verifies; for a half at infinity the
+\*   binder presents the forged nonce (R1 + b R2, infinity) resp. (infinity, (R1 + b R2)/b)
+\*   that satisfies the verification equation, so that only the parsing rule refuses it.
 HalfForms    == {"even", "odd", "zero33", "zero_junk", "tag04", "offc", "xgep"}
 HalfPlain(h) == h \in {"even", "odd"}
 HalfExt(h)   == HalfPlain(h) \/ h = "zero33"
-NonceParsers == {"musig.pubnonce", "musig.aggnonce"}
+NonceParsers == {"musig.pubnonce", "musig.aggnonce", "musig.partialverify.pubnonce"}
 NonceCases ==
     {x \in {[parser |-> pr, shape |-> h1, rc |-> NA, sc |-> NA, xc |-> h2, inst |-> i] :
                 pr \in NonceParsers, h1 \in HalfForms, h2 \in HalfForms, i \in 1..Instances} :
         HalfPlain(x.shape) \/ HalfPlain(x.xc) \/ (x.shape = "zero33" /\ x.xc = "zero33")}
 NonceVerdict(pr, h1, h2) ==
-    IF pr = "musig.pubnonce"
+    IF pr \in {"musig.pubnonce", "musig.partialverify.pubnonce"}
     THEN IF HalfPlain(h1) /\ HalfPlain(h2) THEN "accept" ELSE "reject"
     ELSE IF HalfExt(h1) /\ HalfExt(h2) THEN "accept" ELSE "reject"
 
